@@ -55,7 +55,8 @@ class Interp:
 
     LOG_PREFIXES = ("_LOGGER.", "logging.")
 
-    def __init__(self, env, call_hook=None, on_store=None, loop_hook=None):
+    def __init__(self, env, call_hook=None, on_store=None, loop_hook=None, strict=False):
+        self.strict = strict  # concrete evaluation: a failed lookup is the program's own KeyError/IndexError, not a missing domain
         self.env = dict(env)
         self.call_hook = call_hook
         self.on_store = on_store
@@ -175,6 +176,8 @@ class Interp:
             try:
                 return base[idx]
             except (KeyError, IndexError, TypeError) as exc:
+                if self.strict and isinstance(exc, (KeyError, IndexError)):
+                    raise Flow("raise", f"{type(exc).__name__}({str(exc)})", node) from None
                 raise AnalysisError(f"guard language: cannot index {text!r}: {exc}") from exc
         if isinstance(node, ast.Call):
             return self.call(node)
